@@ -223,31 +223,69 @@ def rule_ciphers(ctx) -> None:
     chk.floor("C09.wrapper-binding", 10)
 
 
-def _obj_style(ctx, fn: FuncInfo) -> Dict[str, Any]:
-    """obj = Ctor(...); obj.update(x); return obj.finalize()  (or verify in try)."""
-    body = A.body_of(fn.node)
-    ctor = None
-    var = None
-    for st in body:
-        if isinstance(st, ast.Assign) and isinstance(st.value, ast.Call) and isinstance(st.targets[0], ast.Name):
-            v = value_of(ctx, fn, st.value)
-            if isinstance(v, ast.Call) and A.call_name(v) in EXT_SIG:
-                ctor, var = v, st.targets[0].id
-                break
-    if ctor is None:
-        raise AnalysisError(f"{fn.qual}: primitive constructor not found")
-    ups = [c for c in A.calls_in(fn.node, "update") if norm(c.func.value) == var]
-    fin = [c for c in A.calls_in(fn.node) if isinstance(c.func, ast.Attribute) and norm(c.func.value) == var and c.func.attr in ("finalize", "verify", "derive")]
-    name, args = call_desc(ctor)
-    return {"ctor": name, "args": args, "update": [call_desc(u)[1] for u in ups], "final": [(f.func.attr, call_desc(f)[1]) for f in fin]}
+def _obj_trace(ctx, fn: FuncInfo) -> Dict[str, Any]:
+    """The wrapper evaluated on symbolic arguments with the external primitive as a recorder: which primitive is constructed with
+    which arguments, what is fed to update(), how it is finished and what is returned.  Classes of the analysed module that wrap the
+    primitive (spsdk's own Hash) are stepped into, so going through them or through the library object directly reads the same."""
+    params = [a.arg for a in fn.node.args.args]
+    made: List[ordereval.Obj] = []
+    classes = {c.name: c for c in ctx.prog.classes.values() if c.module is fn.module}
+
+    def bound(name: str, call: ast.Call, ev) -> Tuple:
+        sig = EXT_SIG.get(name, [])
+        out = {}
+        for i, a in enumerate(call.args):
+            out[sig[i] if i < len(sig) else f"#{i}"] = ev.ev(a)
+        for k in call.keywords:
+            out[k.arg or "**"] = ev.ev(k.value)
+        return tuple(sorted(out.items()))
+
+    def cv(call: ast.Call, ev):
+        name = A.call_name(call)
+        if name == "get_hash_algorithm" and len(call.args) + len(call.keywords) == 1:
+            return ("ALG", ev.ev(call.args[0] if call.args else call.keywords[0].value))
+        external = isinstance(call.func, ast.Attribute) and isinstance(call.func.value, ast.Name) and call.func.value.id not in ev.env \
+            or isinstance(call.func, ast.Name) and call.func.id not in ev.env and call.func.id not in classes
+        if name in ("AES", "SM4") and external:
+            return (name,) + bound(name, call, ev)
+        if name in ("Hash", "HMAC", "CMAC") and external:
+            o = ordereval.Obj(_ext=name, args=bound(name, call, ev), ups=[], fin=None)
+            made.append(o)
+            return o
+        if isinstance(call.func, ast.Attribute) and call.func.attr in ("update", "finalize", "verify"):
+            try:
+                recv = ev.ev(call.func.value)
+            except ordereval.Unsupported:
+                return ordereval.NOT_MODELLED
+            if isinstance(recv, ordereval.Obj) and "_ext" in recv.__dict__:
+                if recv.fin is not None:
+                    raise ordereval.Unsupported(call, "primitive used after it was finished")
+                if call.func.attr == "update":
+                    recv.ups.append(bound("update", call, ev))
+                    return None
+                recv.fin = (call.func.attr, bound(call.func.attr, call, ev))
+                return ("DIGEST", id(recv)) if call.func.attr == "finalize" else None
+        return ordereval.NOT_MODELLED
+    try:
+        out = ordereval.Evaluator({p_: f"<{p_}>" for p_ in params}, ctx.fold_sym(fn), opaque_return=False,
+                                  call_value=ctx.model_calls(cv, classes=classes)).run(A.body_of(fn.node))
+    except ordereval.Unsupported as ex:
+        raise AnalysisError(f"{fn.qual}: left the fragment: {ex}")
+    if len(made) != 1:
+        return {"error": f"{len(made)} primitive objects constructed"}
+    o = made[0]
+    ret = "digest" if out.kind == "return" and out.value == ("DIGEST", id(o)) else (out.kind, out.value if not isinstance(out.value, tuple) else "?")
+    return {"ctor": o._ext, "args": dict(o.args), "update": [dict(u) for u in o.ups], "final": [(o.fin[0], dict(o.fin[1]))] if o.fin else [], "returns": ret}
 
 
 OBJ_REF = {
-    (HASH, "get_hash"): {"ctor": "Hash", "args": {"algorithm": "get_hash_algorithm(algorithm)"}, "update": [{"data": "data"}], "final": [("finalize", {})]},
-    (HMAC, "hmac"): {"ctor": "HMAC", "args": {"key": "key", "algorithm": "get_hash_algorithm(algorithm)"}, "update": [{"data": "data"}], "final": [("finalize", {})]},
-    (HMAC, "hmac_validate"): {"ctor": "HMAC", "args": {"key": "key", "algorithm": "get_hash_algorithm(algorithm)"}, "update": [{"data": "data"}], "final": [("verify", {"signature": "signature"})]},
-    (CMAC, "cmac"): {"ctor": "CMAC", "args": {"algorithm": "algorithms.AES(key)"}, "update": [{"data": "data"}], "final": [("finalize", {})]},
-    (CMAC, "cmac_validate"): {"ctor": "CMAC", "args": {"algorithm": "algorithms.AES(key)"}, "update": [{"data": "data"}], "final": [("verify", {"signature": "signature"})]},
+    (HASH, "get_hash"): {"ctor": "Hash", "args": {"algorithm": ("ALG", "<algorithm>")}, "update": [{"data": "<data>"}], "final": [("finalize", {})], "returns": "digest"},
+    (HMAC, "hmac"): {"ctor": "HMAC", "args": {"key": "<key>", "algorithm": ("ALG", "<algorithm>")}, "update": [{"data": "<data>"}], "final": [("finalize", {})], "returns": "digest"},
+    (HMAC, "hmac_validate"): {"ctor": "HMAC", "args": {"key": "<key>", "algorithm": ("ALG", "<algorithm>")}, "update": [{"data": "<data>"}],
+                              "final": [("verify", {"signature": "<signature>"})], "returns": ("return", True)},
+    (CMAC, "cmac"): {"ctor": "CMAC", "args": {"algorithm": ("AES", ("key", "<key>"))}, "update": [{"data": "<data>"}], "final": [("finalize", {})], "returns": "digest"},
+    (CMAC, "cmac_validate"): {"ctor": "CMAC", "args": {"algorithm": ("AES", ("key", "<key>"))}, "update": [{"data": "<data>"}],
+                              "final": [("verify", {"signature": "<signature>"})], "returns": ("return", True)},
 }
 
 
@@ -255,13 +293,9 @@ def rule_macs(ctx) -> None:
     chk = ctx.chk
     for (rp, name), ref in OBJ_REF.items():
         fn = ctx.func(rp, name)
-        d = _obj_style(ctx, fn)
-        chk.decide(d == ref, "C09.wrapper-binding", fn.qual, f"{ref['ctor']}({ref['args']}).update(data).{ref['final'][0][0]}()", f"{d}", f"{ref}", A.loc(rp, fn.node))
-        if ref["final"][0][0] == "finalize":
-            r = A.returns_in(fn.node)
-            ok = len(r) == 1 and isinstance(r[0].value, ast.Call) and A.call_name(r[0].value) == "finalize"
-            chk.decide(ok, "C09.wrapper-binding", fn.qual + " return", "returns the finalised digest", norm(r[0]) if r else "", "return obj.finalize()", A.loc(rp, fn.node))
-        else:
+        d = _obj_trace(ctx, fn)
+        chk.decide(d == ref, "C09.wrapper-binding", fn.qual, f"{ref['ctor']}({ref['args']}).update(data).{ref['final'][0][0]}() is what the wrapper does and returns (trace on symbolic arguments)", f"{d}", f"{ref}", A.loc(rp, fn.node))
+        if ref["final"][0][0] != "finalize":
             # verify inside a try: completing it leads to `return True` (inside or after the try), InvalidSignature alone to `return False`
             trs = [n for n in A.walk_no_nested(fn.node) if isinstance(n, ast.Try)]
             ok = False
@@ -324,12 +358,41 @@ def rule_macs(ctx) -> None:
             chk.decide(val[1].upper() in known and val[1].upper() == k, "C09.hash-registry", f"{HASH}::EnumHashAlgorithm.{k}", f"label {val[1]!r} names hashes.{val[1].upper()}",
                        f"label {val[1]!r} of member {k}", "label.upper() is the member's own hash class", A.loc(HASH, en.node))
     gha = ctx.func(HASH, "get_hash_algorithm")
-    g = [c for c in A.calls_in(gha.node, "getattr")]
-    chk.decide(bool(g) and norm(g[0].args[0]) == "hashes" and norm(g[0].args[1]) == "algorithm.label.upper()", "C09.hash-registry", gha.qual, "class looked up by the member's own label",
-               norm(g[0]) if g else "", "getattr(hashes, algorithm.label.upper(), None)", A.loc(HASH, gha.node))
+    # evaluated on a model member: the class is looked up in `hashes` under the member's own upper-cased label and instantiated;
+    # a label without such a class is refused by a raise
+    par = gha.params()[0]
+
+    def cv_h(c: ast.Call, ev):
+        if A.call_name(c) == "getattr" and len(c.args) in (2, 3) and norm(c.args[0]) == "hashes":
+            nm = ev.ev(c.args[1])
+            if nm in known:
+                return ordereval.Obj(_hashcls=nm)
+            if len(c.args) == 3:
+                return ev.ev(c.args[2])
+            raise ordereval.ModelRaise(ordereval.Outcome("raise", "AttributeError", c))
+        if not c.args and not c.keywords:
+            try:
+                callee = ev.ev(c.func)
+            except ordereval.Unsupported:
+                return ordereval.NOT_MODELLED
+            if isinstance(callee, ordereval.Obj) and "_hashcls" in callee.__dict__:
+                return ("INSTANCE", callee._hashcls)
+        return ordereval.NOT_MODELLED
+    probs = []
+    for label in ("sha256", "Sha384", "sha3_512", "sm3", "nonsense"):
+        try:
+            out = ordereval.Evaluator({par: ordereval.Obj(label=label, tag=0)}, ctx.fold_sym(gha), opaque_return=False, call_value=cv_h).run(A.body_of(gha.node))
+        except ordereval.Unsupported as ex:
+            raise AnalysisError(f"C09.hash-registry: get_hash_algorithm left the fragment: {ex}")
+        want_o = ("return", ("INSTANCE", label.upper())) if label.upper() in known else ("raise", None)
+        if (out.kind, out.value) != want_o or (out.kind == "raise" and not isinstance(out.node, ast.Raise)):
+            probs.append(f"label {label!r}: {out.kind} {out.value!r}")
+    chk.decide(not probs, "C09.hash-registry", gha.qual, "class looked up by the member's own label (upper-cased) and instantiated; unknown labels refused",
+               "; ".join(probs[:3]), "getattr(hashes, algorithm.label.upper(), None)()", A.loc(HASH, gha.node))
     ghl = ctx.func(HASH, "get_hash_length")
     r = A.returns_in(ghl.node)
-    chk.decide(bool(r) and norm(r[0].value) == "get_hash_algorithm(algorithm).digest_size", "C09.hash-registry", ghl.qual, "length is the digest size of the same algorithm", norm(r[0]) if r else "", "", A.loc(HASH, ghl.node))
+    sp = [q for q in A.spaths(ghl.node) if q.end == "return"]
+    chk.decide(bool(sp) and all(q.vtext == "get_hash_algorithm(algorithm).digest_size" for q in sp), "C09.hash-registry", ghl.qual, "length is the digest size of the same algorithm", norm(r[0]) if r else "", "", A.loc(HASH, ghl.node))
 
 
 CRC_REF = {
@@ -484,22 +547,56 @@ def rule_kdf(ctx, P: str = "C09") -> None:
             if not (out.kind == "return" and out.value == want_b):
                 probs.append(f"key_length {kl}, mode {mode}: {out.kind} {out.value!r} (expected CMAC(key, data(1)){' || CMAC(key, data(2))' if kl == 256 else ''})")
     chk.decide(not probs, f"{P}.kdf-derive", dk.qual, f"CMAC(key, data(i=1)) and, for 256-bit keys, || CMAC(key, data(i=2)); the record is bound to the caller's own parameters ({n_models} models)", "; ".join(probs[:2]), "", A.loc(KDF, dk.node))
-    for name, const, mode in (("derive_block_key", "block_number", "BLK"), ("derive_kdk", "timestamp", "KDK")):
-        f2 = ctx.func(KDF, name)
-        c = [x for x in A.calls_in(f2.node, "_derive_key")]
-        d = call_desc(c[0])[1] if c else {}
-        keyp = f2.params()[0]
-        want2 = {"key": keyp, "derivation_constant": const, "kdk_access_rights": "kdk_access_rights", "key_length": "key_length", "mode": f"KeyDerivationMode.{mode}"}
-        chk.decide(d == want2, f"{P}.kdf-derive", f2.qual, f"_derive_key({want2})", f"{d}", f"{want2}", A.loc(KDF, f2.node))
+    # the public entry points evaluated on a model, stepping into every function of the module on the way: the derivation record and
+    # CMAC are symbolic leaves.  derive_kdk / derive_block_key / KeyDerivator bind key, constant, rights, length and mode as documented.
+    gd_params = [a.arg for a in fn.node.args.args]
     kd = ctx.cls(KDF, "KeyDerivator")
-    f3 = ctx.own(KDF, "KeyDerivator", "get_block_key")
-    r = A.returns_in(f3.node)
-    chk.decide(bool(r) and norm(r[0].value) == "derive_block_key(self.kdk, block_number, self.key_length, self.kdk_access_rights)", f"{P}.kdf-derive", f3.qual, "block key from the KDK, block number, key length, rights",
-               norm(r[0]) if r else "", "", A.loc(KDF, f3.node))
-    f4 = ctx.own(KDF, "KeyDerivator", "_derive_kdk")
-    r = A.returns_in(f4.node)
-    chk.decide(bool(r) and norm(r[0].value) == "derive_kdk(self.pck, self.timestamp, self.key_length, self.kdk_access_rights)", f"{P}.kdf-derive", f4.qual, "KDK from PCK, timestamp, key length, rights",
-               norm(r[0]) if r else "", "", A.loc(KDF, f4.node))
+
+    def rec(dc, rights, mode, kl, it) -> bytes:
+        return b"D" + repr(sorted({"derivation_constant": dc, "kdk_access_rights": rights, "mode": mode, "key_length": kl, "iteration": it}.items())).encode()
+
+    def leaves(c: ast.Call, ev):
+        f = norm(c.func)
+        kw = {k.arg: ev.ev(k.value) for k in c.keywords if k.arg}
+        if f in ("functools.partial", "partial") and c.args and norm(c.args[0]) == "_get_key_derivation_data":
+            return ordereval.Obj(_partial=kw)
+        if isinstance(c.func, ast.Name) and isinstance(ev.env.get(c.func.id), ordereval.Obj) and "_partial" in ev.env[c.func.id].__dict__ and not c.args:
+            kw = dict(ev.env[c.func.id].__dict__["_partial"], **kw)
+            f = "_get_key_derivation_data"
+        if f == "_get_key_derivation_data":
+            for i, a in enumerate(c.args):
+                kw[gd_params[i]] = ev.ev(a)
+            return b"D" + repr(sorted(kw.items())).encode()
+        if f == "cmac" and len(c.args) + len(c.keywords) == 2:
+            return b"<" + ev.ev(A.arg_of(c, 0, "key")) + b"|" + ev.ev(A.arg_of(c, 1, "data")) + b">"
+        return ordereval.NOT_MODELLED
+    for n_ in ("derive_kdk", "derive_block_key"):
+        ctx.func(KDF, n_)
+    for n_ in ("__init__", "get_block_key"):
+        ctx.own(KDF, "KeyDerivator", n_)
+    sym_map = {"KeyDerivationMode.KDK": "KDK", "KeyDerivationMode.BLK": "BLK"}
+    calls = ctx.model_calls(leaves, sym_map, classes={"KeyDerivator": kd}, module=KDF, max_depth=6)
+    probs = []
+    n2 = 0
+    for kl in (128, 256):
+        def cm(key: bytes, dc: int, mode: str) -> bytes:
+            return b"".join(b"<" + key + b"|" + rec(dc, 2, mode, kl, i) + b">" for i in range(1, 2 + (kl == 256)))
+        want_kdk = cm(b"P", 11, "KDK")
+        cases = [("derive_kdk(pck, ts, kl, r)", want_kdk), ("derive_block_key(pck, bn, kl, r)", cm(b"P", 5, "BLK")),
+                 ("KeyDerivator(pck, ts, kl, r).kdk", want_kdk), ("KeyDerivator(pck=pck, timestamp=ts, key_length=kl, kdk_access_rights=r).get_block_key(bn)", cm(want_kdk, 5, "BLK"))]
+        for text, want_v in cases:
+            ev_ = ordereval.Evaluator({"pck": b"P", "ts": 11, "kl": kl, "r": 2, "bn": 5}, ctx.fold_sym(dk, sym_map), opaque_return=False, call_value=calls)
+            try:
+                got_v = ev_.ev(ast.parse(text, mode="eval").body)
+            except ordereval.ModelRaise as mr:
+                got_v = f"raise {mr}"
+            except ordereval.Unsupported as ex:
+                raise AnalysisError(f"{P}.kdf-derive: {text} left the fragment: {ex}")
+            n2 += 1
+            if got_v != want_v:
+                probs.append(f"{text} (key_length {kl}): {got_v!r}")
+    chk.decide(not probs, f"{P}.kdf-derive", "derive_kdk / derive_block_key / KeyDerivator", f"KDK = KDF(PCK, timestamp, mode KDK), block key = KDF(KDK, block number, mode BLK), with the caller's rights and length ({n2} models)",
+               "; ".join(probs[:2])[:500], "", A.loc(KDF, kd.node))
 
 
 def rule_counter(ctx) -> None:
